@@ -71,9 +71,16 @@ def check_value(V, s, T, x, tag, strict=True):
     except exc.ParseError:
         V.cover('reject')
         return
-    except (TypeError, ValueError):
-        V.cover('reject')      # plain types re-raise their converter's own error (outside C04's scope)
+    except Exception:  # noqa
+        # plain types (datetime, uuid, ...) re-raise their converter's own error, whatever its class: a rejection here
+        # (which exceptions may leave a parse is C04's subject, not C15's)
+        V.cover('reject')
         return
+    if V.symbolic:
+        # values built under tracing may be CrossHair's stand-ins (timedelta: '{:02d}'.format fails on them); the JSON
+        # encoder is C code that realises its input anyway
+        from crosshair.core import deep_realize
+        y = deep_realize(y)
     j = encode(y)
     ok = minijs.valid(s, j)
     if not V.symbolic:
